@@ -139,6 +139,38 @@ def op_cases(system: str, instance: int = 0) -> list[tuple[str, str]]:
             out.append((f"curl:{system_tag}:repeated{tag}:{name}", "" if ok else
                 f"curl of {comps} in {system} is {short(c, 160)}, chain rule gives "
                 f"{short([sp.simplify(w) for w in wc], 160)}"))
+    # history: a field that was evaluated at a point (or along a curve) before the operator is
+    # applied is still the same field, and so is the vector it was made from
+    from symplyphysics.core.points.cartesian_point import CartesianPoint
+    from symplyphysics.core.points.cylinder_point import CylinderPoint
+    from symplyphysics.core.points.sphere_point import SpherePoint
+    PT = {"cartesian": CartesianPoint, "cylindrical": CylinderPoint, "spherical": SpherePoint}[system]
+    q1_, q2_, q3_ = q
+    for name, comps in (("polynomial", [q1_ * q2_, q2_ * q3_, q1_**2 + q3_]), ("mixed", [q1_ * q3_,
+        sp.sin(q2_) * q1_, q2_ * q3_**2])):
+        src = Vector(list(comps), cs)
+        F = VectorField.from_vector(src)
+        for use in ("point", "point-twice", "curl-then-point"):
+            try:
+                if use == "curl-then-point":
+                    curl_operator(F)(PT(*POINTS[system][0]))
+                else:
+                    F(PT(*POINTS[system][0]))
+                    if use == "point-twice":
+                        F(PT(*POINTS[system][-1]))
+            except Exception as ex:  # pylint: disable=broad-except
+                out.append((f"history:{system_tag}:{name}:{use}", f"evaluation raised "
+                    f"{type(ex).__name__}: {short(ex)}"))
+                continue
+            d = divergence_operator(F)
+            c = curl_operator(F).apply_to_basis().components
+            ok = zero_at_points(system, q, d - ref.div(comps)) and all(zero_at_points(system, q, a - b)
+                for a, b in zip(R.pad(c), ref.curl(comps)))
+            msg = "" if ok else (f"after the field was evaluated at a point ({use}) its divergence "
+                f"is {short(d, 120)} and its curl {short(c, 160)}")
+            if ok and list(src.components) != list(comps):
+                msg = f"the vector the field was made from was changed: {short(src.components, 160)}"
+            out.append((f"history:{system_tag}:{name}:{use}", msg))
     # all slots generic at once, every component count
     G = [sp.Function(f"F{i}")(*q) for i in range(3)]
     for n in range(0, 4):
